@@ -447,6 +447,16 @@ def run_shard(shard, tier, acc):
 def replay(case, acc):
     if "tokens" in case:
         check_text(tuple(case["tokens"]), acc, opts=[tuple(case["options"])], fresh=True, case=case)
+        if not acc.viol:
+            # the failure may depend on what the process converted before (state kept between calls): replay the case
+            # after the short texts, as in the exploration
+            for opt in OPTIONS:
+                e = LatexEncodingMiddleware(keep_math=opt[0], enclose_urls=opt[1])
+                for n in (1, 2):
+                    for toks in itertools.product(SIGMA, repeat=n):
+                        if in_domain(toks, "".join(toks)):
+                            conv(e, "".join(toks))
+            check_text(tuple(case["tokens"]), acc, opts=[tuple(case["options"])], fresh=True, case=case)
     elif "state_text" in case:
         check_state(acc)
     elif "big" in case:
